@@ -461,13 +461,13 @@ def rule_r5(chk):
 
 
 def run(chk):
-    rule_r1(chk)
-    rule_r2(chk)
-    rule_r3(chk)
-    rule_r4(chk)
-    rule_r5(chk)
+    chk.guard(rule_r1, chk)
+    chk.guard(rule_r2, chk)
+    chk.guard(rule_r3, chk)
+    chk.guard(rule_r4, chk)
+    chk.guard(rule_r5, chk)
     from .. import variants
-    variants.apply(chk, "C06-R6", [("irispie.simultaneous._simulate", "Inlay.simulate")])
+    chk.guard(variants.apply, chk, "C06-R6", [("irispie.simultaneous._simulate", "Inlay.simulate")])
     chk.assumptions = [
         "that converged paths satisfy the equations and coincide with first order on linear models is numerical: NOT decided",
         "neqs solvers return (final_guess, ExitStatus)",
